@@ -2,6 +2,10 @@
 pub mod cmp;
 pub mod gen;
 pub mod objjson;
+pub mod refcmap;
+pub mod refcodec;
+pub mod refcrypt;
+pub mod refdate;
 pub mod rt;
 pub mod run;
 pub mod util;
